@@ -12,9 +12,10 @@ Definition ev_eqb (x y : ev) : bool :=
       (l =? l') && (c =? c') && (n =? n') && Bool.eqb g g' && zlist_eqb b b'
   | VUnsub c n l, VUnsub c' n' l' | VUnsubCb c n l, VUnsubCb c' n' l' =>
       (c =? c') && (n =? n') && (l =? l')
-  | VClear c, VClear c' => c =? c'
+  | VClear c, VClear c' | VStart c, VStart c' | VStop c, VStop c' | VLoopEnd c, VLoopEnd c' => c =? c'
+  | VSkip c k, VSkip c' k' => (c =? c') && (k =? k')
   | VBegin p c n a, VBegin p' c' n' a' => (p =? p') && (c =? c') && (n =? n') && zlist_eqb a a'
-  | VInv p l a, VInv p' l' a' => (p =? p') && (l =? l') && zlist_eqb a a'
+  | VInv p l a g, VInv p' l' a' g' => (p =? p') && (l =? l') && zlist_eqb a a' && (g =? g')
   | VRet l k, VRet l' k' => (l =? l') && Bool.eqb k k'
   | VEnd p, VEnd p' => p =? p'
   | VEnq c n a, VEnq c' n' a' | VDeq c n a, VDeq c' n' a' => (c =? c') && (n =? n') && zlist_eqb a a'
